@@ -146,7 +146,18 @@ class ToolWorld:
     def close(self):
         if self.server: self.server.close()
 
-def run_tool_scenario(ctx, idx, depth):
+def script_expiry_after_failed_apply(rng):
+    """a token survives failed applies (adopt refused, world unchanged) but never its lifetime: the user
+    makes the output file unmanaged-different, deploy issues T, applies without adopt fail at several
+    times, the clock passes T's expiry, an apply WITH adopt must answer E_CONFIRM_TOKEN_EXPIRED"""
+    sc = [{'k': 'mutate', 'm': 5}, {'k': 'mutate', 'm': 1}, {'k': 'deploy'}, {'k': 'apply', 'adopt': False}]
+    total = 0
+    for dt in rng.choice([[300, 310], [590, 60], [300, 200, 110], [60, 590], [610]]):
+        sc.append({'k': 'tick', 'dt': dt}); total += dt
+        sc.append({'k': 'apply', 'adopt': total >= 600 or rng.random() < 0.2})
+    return sc
+
+def run_tool_scenario(ctx, idx, depth, script=None):
     rng = ctx.rng
     sb = Sandbox('c11')
     sb.git_init_project()
@@ -155,15 +166,17 @@ def run_tool_scenario(ctx, idx, depth):
     issued = []      # (token, binding dict)
     try:
         t, ps = tw.setplan_term(); ops.append(t); obs.append((5, '', '')); trace.append({'op': 'observe-plan', 'plans': ps})
-        for step in range(depth):
-            k = rng.random()
+        issue_skew = {}
+        for step in range(len(script) if script else depth):
+            forced = script[step] if script else None
+            k = rng.random() if not forced else {'deploy': 0.0, 'apply': 0.3, 'mutate': 0.7, 'tick': 0.9, 'restart': 0.99}[forced['k']]
             if k < 0.27:
-                b = rng.choice(tw.bindings)
+                b = rng.choice(tw.bindings) if not forced else tw.bindings[0]
                 msg, env = tw.server.call('deploy', b)
                 if env is None:
                     ctx.violation('deploy tool returned no envelope', {'stream': 'tool', 'trace': trace}); return None
                 if env.get('ok'):
-                    tok = env['data'].get('confirm_token'); issued.append((tok, b))
+                    tok = env['data'].get('confirm_token'); issued.append((tok, b)); issue_skew[tok] = tw.skew
                     ops.append('Issue %s %s' % (cbinding(tw.btuple(b)), cq.cstr(tok))); obs.append((0, tok, ''))
                     trace.append({'op': 'deploy', 'binding': b, 'issued': tok[:8] + '…', 'plan_hash': env['data'].get('confirm_plan_hash')})
                 else:
@@ -187,6 +200,9 @@ def run_tool_scenario(ctx, idx, depth):
                 else:
                     tok = None
                 yes = rng.random() < 0.85; dry = rng.random() < 0.12; adopt = rng.random() < 0.4
+                if forced:
+                    b = tw.bindings[0]; yes = True; dry = False; adopt = forced['adopt']
+                    tok = issued[-1][0] if issued else 'deadbeef' * 8
                 args = dict(b); args['yes'] = yes
                 if tok is not None: args['confirm_token'] = tok
                 if dry or rng.random() < 0.2: args['dry_run'] = dry
@@ -212,6 +228,8 @@ def run_tool_scenario(ctx, idx, depth):
                     ctx.violation('deploy_apply changed target files although it did not report applied=true', {'stream': 'tool', 'trace': trace})
                 if o[0] == 4 and not (yes and not dry and tok and any(t == tok and bb == b for t, bb in issued)):
                     ctx.violation('deploy_apply applied without yes / with dry_run / without a token issued for these arguments', {'stream': 'tool', 'trace': trace})
+                if o[0] == 4 and tok in issue_skew and (tw.skew - issue_skew[tok]) * 1000 >= TTL:
+                    ctx.violation('deploy_apply applied with a token older than its ten-minute lifetime (%d s)' % (tw.skew - issue_skew[tok]), {'stream': 'tool', 'trace': trace})
                 if o[0] == 1 and tok is not None and yes and not dry and o[1] not in CODES and o[1] != 'E_ADOPT_CONFIRM_REQUIRED':
                     pass  # planning errors etc. are compared against the model below
                 ops.append('Apply %s %s %s %s %s' % (cq.copt(tok, cq.cstr), cbinding(tw.btuple(b)), cq.cbool(yes), cq.cbool(dry), cq.cbool(adopt)))
@@ -221,7 +239,7 @@ def run_tool_scenario(ctx, idx, depth):
                     if o[0] == 4:
                         t2, ps = tw.setplan_term(); ops.append(t2); obs.append((5, '', '')); trace.append({'op': 'observe-plan', 'plans': ps})
             elif k < 0.82:
-                m = rng.randrange(8)
+                m = rng.randrange(8) if not forced else forced['m']
                 if m >= 6:
                     # machine-scoped overlay: changes the plan of the {'machine': 'm2'} binding only
                     ov = os.path.join(sb.repo, 'overlays/machines/m2/instructions:base/AGENTS.md')
@@ -245,7 +263,7 @@ def run_tool_scenario(ctx, idx, depth):
                     what = 'delete target manifest'
                 t2, ps = tw.setplan_term(); ops.append(t2); obs.append((5, '', '')); trace.append({'op': 'mutate', 'what': what, 'plans': ps})
             elif k < 0.94:
-                dt = rng.choice(DTS); tw.skew += dt
+                dt = rng.choice(DTS) if not forced else forced['dt']; tw.skew += dt
                 open(tw.clock_file, 'w').write(str(tw.skew))
                 ops.append('Tick %s' % cq.cN(dt * 1000)); obs.append((5, '', '')); trace.append({'op': 'tick', 'seconds': dt})
             else:
@@ -317,6 +335,9 @@ def run(ctx):
         if r:
             cases.append(r)
             if i == 0: ctx.sample(r[1])
+    for i in range(6 if quick else 60):
+        r = run_tool_scenario(ctx, 10000 + i, 0, script=script_expiry_after_failed_apply(ctx.rng))
+        if r: cases.append(r)
     for c in ctx.corr('tool', HEADER, 'check_tool', 'list op * list (N * str * str)', cases, shard_chars=30000):
         ctx.violation('model and implementation disagree on the deploy/deploy_apply state machine', c, no_input=True)
     run_concurrent_pairs(ctx, 3 if quick else 40)
